@@ -23,8 +23,10 @@ Record case := {
   c_calls : list (Z * N * N);              (* relay-side log: (instant the relay's answer was ready = arrival of the
                                               request + scripted latency, relay, call) of every request a relay
                                               answers, by (time, relay) -- whether or not vouch still held the line *)
-  c_dropped : list (Z * N * N)             (* the entries of c_calls whose request vouch had aborted (context ended)
+  c_dropped : list (Z * N * N);            (* the entries of c_calls whose request vouch had aborted (context ended)
                                               before the answer was ready: the answer never reached vouch *)
+  c_stuck : bool                           (* goroutines of the call were still blocked, for good, after the call had
+                                              returned and every mock had been released *)
 }.
 
 Definition obs_part_eqb (a b : obs_part) : bool :=
@@ -57,7 +59,7 @@ Definition agree (c : case) : bool :=
   let s := c_strat c in
   let rs := c_relays c in
   let runs := strategy_runs c in
-  negb (c_panic c)
+  negb (c_panic c) && negb (c_stuck c)
   && list_eqb call_eqb (if runs then calls_before s rs else []) (calls_before_obs c)
   (* no request is aborted by vouch while its answer would still be in time *)
   && forallb (fun '(t, _, _) => (cutoff s <=? t)%Z) (c_dropped c)
